@@ -393,7 +393,10 @@ class NetworkServiceSliver(BaseSliver):
                 flag = iA.prop_diff(iB)
 
                 if iA.get_type() == InterfaceType.DedicatedPort:
-                    if iA.diff(iB):
+                    # iA.diff() also reports the port's own property changes (already in flag);
+                    # only changes below the port are sub-interface changes
+                    sub = iA.diff(iB)
+                    if sub and (sub.added.interfaces or sub.removed.interfaces or sub.modified.interfaces):
                         flag |= WhatsModifiedFlag.SUB_INTERFACES
 
                 if flag != WhatsModifiedFlag.NONE:
